@@ -164,6 +164,10 @@ def gen_find_world(rng, max_atoms=48, max_copies=6, families=None, cell_families
             if np.linalg.norm(perp) < 1e-6:
                 perp = np.cross(ax, [1.0, 0.3, 0.2])
             return geom.rotation_about(perp, math.pi)
+        if pose == "near_aligned":
+            # a small but non-zero rotation away from identity / an axis-aligned pose (1e-4 .. 0.2 rad)
+            base = np.eye(3) if rng.random() < 0.6 else geom.CUBE_ROTS[rng.randrange(24)]
+            return geom.rotation_about([rng.gauss(0, 1) for _ in range(3)], 10 ** rng.uniform(-4, -0.7)) @ base
         return geom.random_rotation(rng)
 
     def random_translation(X, bclass):
@@ -218,7 +222,7 @@ def gen_find_world(rng, max_atoms=48, max_copies=6, families=None, cell_families
                     break
             continue
         for attempt in range(12):
-            pose = "antiparallel" if (want_antiparallel and c == 0) else rng.choice(["random", "random", "random", "aligned"])
+            pose = "antiparallel" if (want_antiparallel and c == 0) else rng.choice(["random", "random", "random", "aligned", "near_aligned"])
             R = random_pose(pose)
             X = P @ R.T
             eps = 0.0
